@@ -832,11 +832,13 @@ class MessageManager(ClientLike):
         msg = cd.MDF_ACTIVE_CLIENTS()
         msg.timestamp = time.perf_counter()
 
-        for i, (sock, module) in enumerate(self.modules.items()):
+        # Note: iterate over a copy, a failed send can remove a module
+        for i, (sock, module) in enumerate(list(self.modules.items())):
             # if sock == self.listen_socket:
             #     continue
-            msg.client_mod_id[i] = module.mod_id
-            msg.client_pid[i] = module.pid
+            if i < cd.MAX_ACTIVE_CLIENTS:
+                msg.client_mod_id[i] = module.mod_id
+                msg.client_pid[i] = module.pid
             self.send_client_info(module)
 
         msg.num_clients = len(self.modules) - 1
